@@ -523,7 +523,7 @@ class Neo4jPropertyGraph(ABCPropertyGraph):
         """
         assert node_id is not None
         assert label is not None
-        query = f"MATCH (n:GraphNode:{label} {{GraphID: $graphId, NodeID: $nodeId}} RETURN collect(n.NodeID) as nodeids"
+        query = f"MATCH (n:GraphNode:{label} {{GraphID: $graphId, NodeID: $nodeId}}) RETURN collect(n.NodeID) as nodeids"
         with self.driver.session() as session:
             val = session.run(query, graphId=self.graph_id, nodeId=node_id).single()
             if val is None or len(val.data()) == 0 or len(val.data()['nodeids']) == 0:
